@@ -336,3 +336,41 @@ def tree_set_native(P, ks, a):
     alive1 = sum(1 for o_ in gc.get_objects() if type(o_) in types)
     if alive1 > alive0:
         fail('%d nodes of the tree stay alive after it was dropped (reference leak)' % (alive1 - alive0), ctx, keys, n_)
+
+
+def tree_range_native(P, ks, a):
+    """replay of an E2 BTree_findRangeEnd counterexample: the compiled family's BTree loaded with the template, range
+    query with one bound through the public API (keys / minKey / maxKey)"""
+    from engine import shapes
+
+    def tup(x):
+        return tuple(tup(i) for i in x) if isinstance(x, (list, tuple)) else x
+    fam, tpl, low, ex = P['family'], tup(P['tpl']), P['low'], P['exclude']
+    cl = shapes.classes(fam, 'c')
+    shapes.set_sizes(cl, 2, 2)
+    m = shapes.n_ranks(tpl)
+    keys = [a['k%d' % i] for i in range(m)]
+    t = shapes.build_loaded(tpl, keys, cl, 'BTree', lambda r: r + 1)
+    stored = sorted(keys[r] for r in set(shapes.leaf_keys(tpl)))
+    n = a['n']
+    ctx = {'harness': 'tree_range_native', 'family': fam, 'low': low, 'exclude': ex}
+    nodes = _nodes(t)
+    if low:
+        got = list(t.keys(n, None, bool(ex), False))
+        want = [k for k in stored if (k > n if ex else k >= n)]
+    else:
+        got = list(t.keys(None, n, False, bool(ex)))
+        want = [k for k in stored if (k < n if ex else k <= n)]
+    if got != want:
+        fail('compiled range search with one bound differs from the model', ctx, keys, n, got, want)
+    if not ex:
+        try:
+            g2 = t.minKey(n) if low else t.maxKey(n)
+        except ValueError:
+            g2 = None
+        w2 = (want[0] if low else want[-1]) if want else None
+        if g2 != w2:
+            fail('compiled minKey/maxKey with a bound differs from the model', ctx, keys, n, g2, w2)
+    for nd in nodes:
+        if nd._p_state == 2:
+            fail('a node is left pinned after a range search', ctx)
